@@ -1,11 +1,11 @@
 package recovery
 
 import (
+	"cmp"
 	"encoding/json"
 	"fmt"
 	"io"
 	"slices"
-	"strings"
 
 	"reduction.dev/reduction/dkv/kv"
 	"reduction.dev/reduction/dkv/sst"
@@ -181,14 +181,25 @@ func LoadCheckpointList(fs storage.FileSystem, dataOwnership kv.DataOwnership, c
 		}
 	}
 
-	// The merged documents come from instances that owned disjoint key ranges
-	// but they're listed in no particular order. Below level 0 the tables of a
-	// level have to be in key order to be searchable.
+	// Below level 0 a level has to be a run of tables with disjoint key ranges.
+	// The tables of different instances don't form such runs: they're listed in
+	// no particular order and, after an earlier rescaling, tables inherited from
+	// a common ancestor overlap (they still carry the keys the instance doesn't
+	// own). All tables of a merged checkpoint therefore start out in level 0,
+	// where overlaps are allowed, from oldest to newest. For any one key the
+	// versions written by its owner are newer than the copies other instances
+	// inherited, so the newest table holding a key has its latest version.
 	if len(rest) > 0 {
-		for levelIndex := 1; levelIndex < len(compositeCheckpointDoc.Levels); levelIndex++ {
-			slices.SortStableFunc(compositeCheckpointDoc.Levels[levelIndex], func(a, b sst.TableDocument) int {
-				return strings.Compare(a.StartKey, b.StartKey)
-			})
+		var all []sst.TableDocument
+		for levelIndex := len(compositeCheckpointDoc.Levels) - 1; levelIndex >= 0; levelIndex-- {
+			all = append(all, compositeCheckpointDoc.Levels[levelIndex]...)
+			compositeCheckpointDoc.Levels[levelIndex] = nil
+		}
+		slices.SortStableFunc(all, func(a, b sst.TableDocument) int {
+			return cmp.Compare(a.EndSeqNum, b.EndSeqNum)
+		})
+		if len(compositeCheckpointDoc.Levels) > 0 {
+			compositeCheckpointDoc.Levels[0] = all
 		}
 	}
 
